@@ -101,10 +101,24 @@ def gen_cases(rng, tier):
                 pre.append(["Alias", ren[nme], nme])
         if rng.random() < 0.2 and dec:
             pre.append(["Alias", "Unused" + str(rng.randint(0, 9)), rng.choice(dec)])
+        # a second alias of an already aliased decaying particle, with its own (different) Decay block, used side by side
+        twins = [nme for nme in dec[1:] if nme in ren]
+        if twins and rng.random() < 0.5:
+            t = rng.choice(twins)
+            twin = ren[t] + "B"
+            pre.append(["Alias", twin, t])
+            aliases[twin] = t
+            stmts.append(["Decay", twin, [{"bf": "1.0", "fs": [rng.choice(leaves), rng.choice(leaves)], "photos": False, "model": "PHSP", "params": None}]])
+            for st in stmts:
+                if st[1] != twin and st[2] and any(t in l["fs"] for l in st[2]):
+                    for l in st[2]:
+                        if t in l["fs"]:
+                            l["fs"].append("__TWIN__" + twin)
+                    break
         for st in stmts:
             st[1] = ren.get(st[1], st[1])
             for l in st[2]:
-                l["fs"] = [ren.get(d, d) for d in l["fs"]]
+                l["fs"] = [d[8:] if d.startswith("__TWIN__") else ren.get(d, d) for d in l["fs"]]
         dec2 = [ren.get(d, d) for d in dec]
         rng.shuffle(pre)
         allst = pre + stmts if rng.random() < 0.7 else stmts + pre
